@@ -20,6 +20,7 @@ func init() {
 			"R2": "predicate definitions (truth tables): ShouldPause, auto-open, alive",
 			"R3": "handler always scheduled: continue step returns delay(handler); delay runs the handler unless cancelled; every other exit of the continue step returns a value known to be an error",
 			"R4": "no silent drop in the open-game callback unless excluded by the set-up guard (participants provenance)",
+			"R8": "the rotation every next hand depends on counts the eligible players after it re-evaluated the waiting flags (shared with C04.R4): counted before, a table with one old and one newly eligible player is refused on every retry and neither pauses nor deals",
 			"R7": "a known, seated-in player's settlement-finished report reaches the open-game gate under that player's own id",
 			"R6": "the open-game gate is constructed with a positive time limit (constant, or guarded > 0), so the 'or the open-game timeout elapses' arm exists",
 			"R5": "the participants handed to set-up are the whole list of settled participants that still have chips, passed settle → continue → handler unchanged",
@@ -226,6 +227,11 @@ func checkContinueHandler(c *Ctx, rule string) (lc *lifecycle, handler, pauseFn,
 func checkC08(c *Ctx) {
 	p := c.P
 	checkSettlementFinish(c, "R7")
+	if rot, countFn := rotationAndCount(p); rot != nil && countFn != nil {
+		checkCountAfterRefresh(c, "R8", rot, countFn)
+	} else {
+		c.Bad("R8", "anchors", "-", "rotation / eligible-player count not found")
+	}
 	lc, handler, pauseFn, autoFn, isSetup, okH := checkContinueHandler(c, "R1")
 	if !okH {
 		return
